@@ -10,7 +10,7 @@ def run(c):
     builds = [("std-rel", 0), ("std-rel", 1), ("nosimd-rel", 0)] + ([("std-dbg", 0), ("std-rel", 2), ("std-rel", 4), ("nostd-sse2", 0), ("nostd-avx2", 0)] if c.thorough else [])
     pin = PIN if not c.thorough else set(range(0, 256, 3)) | PIN
     digest_common.run_digests(c, "jh", "TraceJH", None, builds, pin=(["Jh224", "Jh256", "Jh384", "Jh512"], pin))
-    c.cov["rule"] = ("one-shot digests of Jh224/256/384/512 for message lengths 0..145 (all in thorough; block-aligned vs unaligned boundaries plus a rotating subset in quick) and longer "
+    c.cov["rule"] = ("one-shot digests of Jh224/256/384/512 for message lengths 0..145 (0..273, three passes in thorough; block-aligned vs unaligned boundaries plus a rotating subset in quick) and longer "
                      "random messages on the AVX2, forced-SSE2 and portable backends; TLC recomputes each with JH.tla: the NIBBLE-oriented definition of the specification (S-boxes, L over "
                      "GF(2^4), P_d, round constants generated from C_0 by R6, grouping/degrouping, 42-round E8, IVs derived as F8(size||0,0)), i.e. independent of the implementation's "
                      "bit-sliced form and tables. JH.tla is pinned by NIST ShortMsgKAT entries from the repository's data files.")
